@@ -174,10 +174,7 @@ theorem C02_progress (cfg : Cfg) (acts : List Action) (i : Nat) (op : Op)
     · exact Or.inr (blocked hb)
   | resize n c pc old =>
     cases pc
-    · left; refine ⟨.run, ?_⟩
-      simp only [stepOp, h, stepResize, BEq.rfl, if_true]
-      split <;> exact ⟨_, rfl⟩
-    · -- resize.lock
+    · -- resize.lock / close.lock
       cases hl : s.lock with
       | none =>
         left; refine ⟨.run, ?_⟩
@@ -200,7 +197,6 @@ theorem C02_progress (cfg : Cfg) (acts : List Action) (i : Nat) (op : Op)
       simp only [stepOp, h, stepResize, BEq.rfl, if_true]
       repeat' split
       all_goals exact ⟨_, rfl⟩
-    · left; refine ⟨.run, ?_⟩; simp only [stepOp, h, stepResize, BEq.rfl, if_true]; exact ⟨_, rfl⟩
     · left; refine ⟨.run, ?_⟩; simp only [stepOp, h, stepResize, BEq.rfl, if_true]; exact ⟨_, rfl⟩
   | ret pc o =>
     cases pc
